@@ -139,6 +139,97 @@ def sending(part: Part) -> None:
             part.viol(exc_sig("constructor-raises", exc), f"last_sequence_number_sending={bad}: {exc!r}", {"send_start": bad})
 
 
+SEND_OUTCOMES = ["ok", "CommunicationError-after-transmission", "ConversionError", "no-confirmation", "restart(+4ms)", "restart(+600ms)", "restart(+1500ms)"]
+
+
+def send_histories(part: Part, depth: int) -> None:
+    """The sending direction through the real send path: CEMIHandler.send_telegram over an interface that records what reaches
+    the wire and then succeeds, raises CommunicationError (as a UDP tunnel does AFTER it has transmitted the frame and got no
+    acknowledgement), raises ConversionError, or never confirms; and re-initialisation of Data Secure from the keyring a little
+    later on an explorer-owned clock (what XKNX.stop() + start() does).  ALL histories up to `depth`: the secured frames that
+    reached the wire carry strictly increasing sequence numbers, across failures and restarts."""
+    import itertools
+    import types
+
+    from xknx import XKNX
+    from xknx.exceptions import CommunicationError, ConversionError
+    from xknx.secure import data_secure as ds_mod
+    from xknx.secure.keyring import InterfaceType, Keyring, XMLGroupAddress, XMLInterface
+
+    from ..vloop import World
+
+    kr = Keyring()
+    g = XMLGroupAddress()
+    g.address = GroupAddress(GA)
+    g.decrypted_key = KEY
+    kr.group_addresses.append(g)
+    itf = XMLInterface()
+    itf.type = InterfaceType.TUNNELING
+    itf.individual_address = IndividualAddress(0x1105)
+    itf.group_addresses = {GroupAddress(GA): [IndividualAddress(S1)]}
+    kr.interfaces.append(itf)
+    saved_time = ds_mod.time
+    try:
+        for hist in itertools.product(range(len(SEND_OUTCOMES)), repeat=depth):
+            part.evaluations += 1
+            part.nontrivial += 1
+            clock = {"t": 1_700_000_000.25}
+            ds_mod.time = types.SimpleNamespace(time=lambda: clock["t"])  # type: ignore[assignment]
+            wire: list[int] = []
+            with World() as w:
+                xknx = XKNX()
+                xknx.current_address = IndividualAddress(0x1105)
+                mode = {"m": "ok"}
+
+                class Iface:
+                    async def send_cemi(self, cemi: Any) -> None:
+                        if mode["m"] == "ConversionError":
+                            raise ConversionError("cannot serialise")
+                        if isinstance(cemi.data.payload, SecureAPDU):
+                            wire.append(int.from_bytes(cemi.data.payload.secured_data.sequence_number_bytes, "big"))
+                        else:
+                            wire.append(-1)
+                        if mode["m"] == "CommunicationError-after-transmission":
+                            raise CommunicationError("no TunnellingAck received")
+                        if mode["m"] == "ok":
+                            w.loop.call_soon(xknx.cemi_handler._l_data_confirmation_event.set)  # noqa: SLF001
+
+                xknx.knxip_interface = Iface()  # type: ignore[assignment]
+                xknx.cemi_handler.data_secure_init(kr)
+                desc = []
+                for step, oi in enumerate(hist):
+                    out = SEND_OUTCOMES[oi]
+                    desc.append(out)
+                    if out.startswith("restart"):
+                        clock["t"] += {"restart(+4ms)": 0.004, "restart(+600ms)": 0.6, "restart(+1500ms)": 1.5}[out]
+                        xknx.cemi_handler.data_secure_init(kr)
+                        continue
+                    mode["m"] = out
+
+                    async def snd(i: int = step) -> None:
+                        try:
+                            await xknx.cemi_handler.send_telegram(Telegram(GroupAddress(GA), payload=GroupValueWrite(DPTArray((i,)))))
+                        except Exception:  # noqa: BLE001  (the failure is the environment's choice)
+                            pass
+
+                    t = w.spawn(snd(), name="harness-send")
+                    w.loop.run_until(w.loop.time() + 5)
+                    clock["t"] += 0.001
+                    if not t.done():
+                        part.viol("send-never-returns", f"history {desc}", {"send_history": list(hist)})
+                        break
+                xknx.started.clear()
+            case = {"send_history": list(hist)}
+            if any(n == -1 for n in wire):
+                part.viol("plain-frame-sent-to-secured-group", f"history {desc}: {wire}", case, rank=(len(hist), hist))
+            elif any(b <= a for a, b in zip(wire, wire[1:])):
+                kind = "after-restart" if any(d.startswith("restart") for d in desc) else "after-failed-send" if any(d != "ok" for d in desc) else "plain"
+                part.viol(f"outgoing-sequence-not-increasing:{kind}", f"history {desc}: sequence numbers on the wire {wire}", case, rank=(len(hist), hist))
+            part.outcomes[f"send-history:{len(wire)}-frames"] += 1
+    finally:
+        ds_mod.time = saved_time
+
+
 def worker(maxc: int) -> Part:
     part = Part()
     orig = Management.process
@@ -146,6 +237,7 @@ def worker(maxc: int) -> Part:
     try:
         bfs(maxc, part)
         sending(part)
+        send_histories(part, 4 if maxc >= 5 else 3)
     finally:
         Management.process = orig  # type: ignore[method-assign]
     return part
@@ -156,7 +248,9 @@ def run(ctx: Ctx) -> None:
     ctx.rule = (
         f"explicit-state search to a fixpoint of the real receive path (CEMIHandler.handle_raw_cemi + DataSecure): state = last valid counter of two known senders (0..{maxc})^2, reached by real "
         f"frame histories; from EVERY state every event sender {{S1,S2,unknown}} x counter 1..{maxc} x {{genuine, forged MAC, authentic but malformed inner APDU}} is fed (frames built by the independent "
-        "reference) and delivery / next table compared with a last-valid-counter reference; plus outgoing numbering from {1, 5, 2^48-3} until refusal"
+        "reference) and delivery / next table compared with a last-valid-counter reference; plus outgoing numbering from {1, 5, 2^48-3} until refusal; plus ALL histories of 3 (thorough 4) sends through the real CEMIHandler.send_telegram over an interface that succeeds / raises "
+        "CommunicationError after the frame went out / raises ConversionError / never confirms, interleaved with re-initialisation from the keyring 4 ms, 600 ms or 1.5 s later on an owned clock: "
+        "sequence numbers on the wire strictly increase"
     )
     ctx.assumptions = ["canonical state = the Security Individual Address Table (the only mutable receive state of DataSecure); every explored state is reached by replaying its history on a fresh receiver"]
     ctx.bounds = {"max_counter": maxc, "states_expected": (maxc + 1) ** 2}
@@ -164,5 +258,5 @@ def run(ctx: Ctx) -> None:
 
 
 def replay(case: Any) -> list[tuple[str, str]]:
-    p = worker(4)
+    p = worker(5 if len(case.get("send_history", [])) > 3 else 4)
     return [(s, v[1]) for s, v in p.viols.items()]
